@@ -35,12 +35,21 @@ def replay_parser(stream, hist, variant):
     import mido
     p = mido.Parser()
     pos = 0
+    forked = []
     for i, h in enumerate(hist):
         op, n, r = h['op'], h['n'], h['r']
         try:
             if op == 'feed':
                 chunk = stream[pos:pos + n]
                 pos += n
+                # an empty chunk is a chunk (a read that returned nothing): it changes nothing
+                p.feed([b'', [], iter(()), bytearray()][(i + variant) % 4])
+                if variant % 5 == 0 and i == 1:
+                    # the parser is forked: the copy carries on, the original stays as it is
+                    import copy
+                    original, before = p, (p.pending(), [list(m.bytes()) for m in p.messages])
+                    p = copy.deepcopy(p)
+                    forked.append((original, before))
                 if n == 1 and variant % 2 == 0:
                     p.feed_byte(chunk[0])
                 elif variant % 3 == 0:
@@ -91,6 +100,10 @@ def replay_parser(stream, hist, variant):
                     return 'iter-left', 'step %d: messages left after iteration' % i
         except Exception as e:
             return 'raises/' + type(e).__name__, 'step %d (%s): %r' % (i, op, e)
+    for original, (npend, msgs) in forked:
+        if original.pending() != npend or [list(m.bytes()) for m in original.messages] != msgs:
+            return 'fork-shares-state', 'a parser was deep-copied and the copy fed: the original now holds %r, before %r' % (
+                [list(m.bytes()) for m in original.messages], msgs)
     return None
 
 
